@@ -27,6 +27,7 @@ TIERS = {
 
 RUN_TIMEOUT = 300.0
 SHRINK_WALL = 45.0  # seconds of minimisation per reported violation
+SHRINK_TOTAL = 150.0  # ... and per check
 
 
 def _worker_init() -> None:
@@ -178,6 +179,7 @@ def run_check(modname: str, tier: str, max_runs: int, chunk: int = 8,
     known_hits: Dict[str, int] = {}
     viol_lines: List[str] = []
     minimised_per_class: Dict[str, int] = {}
+    shrink_spent = [0.0]
     all_sigs: Dict[str, int] = {}
     findings = [f for f in kit.load_known_findings() if f.get("property") == prop]
 
@@ -217,9 +219,14 @@ def run_check(modname: str, tier: str, max_runs: int, chunk: int = 8,
                     f"reappear when its trace was re-executed")
                 continue
             try:
-                kit.set_deadline(SHRINK_WALL)
-                small = mod.shrink(trace, v["sig"])
-                kit.set_deadline(None)
+                t_s = time.monotonic()
+                if shrink_spent[0] < SHRINK_TOTAL:
+                    kit.set_deadline(min(SHRINK_WALL, SHRINK_TOTAL - shrink_spent[0]))
+                    small = mod.shrink(trace, v["sig"])
+                    kit.set_deadline(None)
+                else:
+                    small = trace  # minimisation budget of this check is used up: report as found
+                shrink_spent[0] += time.monotonic() - t_s
                 final = mod.execute(small)
                 fv = [x for x in final["violations"] if x["sig"] == v["sig"]]
                 if not fv:
